@@ -45,7 +45,7 @@ def provFlow : List (String × String) := [
   ("unalias", "c.Set(v)"),
   ("unalias", "return c"),
   ("containerOperand", "v.Kind() == Interface && !v.IsNil() => v = v.Elem()"),
-  ("containerOperand", "v.Kind() in {Slice, Map, String} => return unalias(v)"),
+  ("containerOperand", "v.Kind() in {Slice, Map, String, Chan} => return unalias(v)"),
   ("containerOperand", "return v"),
   ("isNil", "v.Kind() in {Chan, Func, Interface, Map, Ptr, Slice} => return v.IsNil()"),
   ("isNil", "v.Kind() default => return false")
